@@ -50,6 +50,20 @@ def main(run):
                                       {"file_exists": earlier > 0, "rows": rows, "cols": cols, "leftovers": nm == "crash_then_save"},
                                       {"earlier": earlier}, True,
                                       detail={"layer": "fault-injection on the real function", "witnesses": bad[:3]})
+    # the results directory on another file system than the system temporary directory (a routine that stages its new
+    # document in /tmp and moves it over is atomic only when both happen to share a file system)
+    other = crash.other_filesystem_root()
+    if other is not None:
+        bad = crash.profile_sweep(1, 2, 2, root=other)
+        run.native_evals += 1
+        run.native_distinct.add(("profile_sweep.other_fs", other))
+        rows_.append({"harness": "profile_sweep", "results_directory_on": other, "violating_crash_points": len(bad)})
+        if bad:
+            run._report_violation("profile_sweep.other_file_system[earlier=1,shape=2x2]/atomic.every_crash_point", SS.sc_save_json,
+                                  {"file_exists": True, "rows": 2, "cols": 2}, {"earlier": 1, "results_directory_on": other}, True,
+                                  detail={"layer": "fault-injection on the real function", "witnesses": bad[:3]})
+    else:
+        rows_.append({"harness": "profile_sweep", "results_directory_on": None, "note": "no second file system on this machine"})
     run.bounded.append({"label": "crash injection on the real save_json (every write/close/replace call fails once)", "rows": rows_,
                         "bound": "hard kill (fork + os._exit, with and without flushing user-space buffers) at every effect point; file histories with 0/2 (0..5) earlier runs x result shapes incl. one larger than the 8 KiB write buffer (thorough); byte comparison with old/new file"})
     return run.finish(
